@@ -108,6 +108,10 @@ class Debugger:
     def reset(self) -> None:
         """Reset the internal state of the debugger."""
         self.vm.reset()
+        self.calls = 0
+        # As at start-up, the data statements are executed before debugging begins.
+        for data_op in self.program.data:
+            data_op.execute(self.vm)
 
     def op(self, index=None) -> AbstractOperation:
         """
